@@ -637,6 +637,20 @@ def check_minimal(case, ctx, model, ex, classes, rich):
             # the import the trace component needs is within two orders of the solver tolerance: a medium without it is
             # as good as one with it for the solver, nothing can be asserted
             return {"nontrivial": False, "classes": sorted(set(classes + ["trace-requirement-below-resolution"])), "undetermined": 1}
+    if trace < 0.01 and verdict == "unreachable":
+        # with a trace requirement "unreachable" may hinge on an amount the solver cannot resolve (a missing import of
+        # 5e-4 is accepted by GLPK after scaling): the verdict stands only if the value is also out of reach without the
+        # trace requirement
+        import copy as _copy
+
+        spec0 = _copy.deepcopy(spec)
+        for r in spec0["rxns"]:
+            if r["id"] == "BIOMASS":
+                r["mets"] = {m: c for m, c in r["mets"].items() if abs(c) >= 0.01}
+        opt0 = max_objective(spec0, bounds)
+        if not (opt0 is None or exact_value - opt0 >= F(BAND) * max(1, abs(opt0))):
+            verdict = "undetermined"
+            classes.append("unreachable-only-by-a-trace-amount")
     kwargs = {"exports": exports, "minimize_components": mc, "open_exchanges": oe}
     call = f"minimal_medium(model, {'' if mode == 'default' else repr(value) + ', '}" + ", ".join(f"{k}={v!r}" for k, v in kwargs.items()) + ")"
     points = []
@@ -651,7 +665,7 @@ def check_minimal(case, ctx, model, ex, classes, rich):
     # constrained problem. GLPK's MIP presolver reasons about bounds with an absolute tolerance of 1e-3 and returns, with
     # status optimal, points that violate the objective constraint by orders of magnitude when a needed import is smaller
     # than that (known finding glpk-mip-infeasible-point): such a case says nothing about minimal_medium's own logic.
-    if res is not None and verdict == "reachable":
+    if res is not None and verdict != "unreachable":
         for k, pt in enumerate(points):
             why = _point_infeasible(spec, bounds, pt, value)
             if why:
